@@ -862,6 +862,10 @@ class Exec(object):
         if isinstance(c, VDictLit):
             pairs = path.heap[('dict', c.did)]
             return [(path, zor(*[self.eq_term(path, item, k) for k, _ in pairs]))]
+        if isinstance(c, VBoundExt) and c.name == '__values_view__' and isinstance(c.recv, VMap):
+            r = self.models.in_values(self, path, c.recv, item)
+            if r is not None:
+                return r
         if isinstance(c, VConc):
             obj = c.obj
             if isinstance(obj, (dict, list, tuple, set, frozenset)):
@@ -1866,7 +1870,7 @@ def term_vars(t):
     tid = t.get_id()
     r = _vars_cache.get(tid)
     if r is not None:
-        return r
+        return r[1]
     out = set()
     seen = set()
     stack = [t]
@@ -1884,7 +1888,8 @@ def term_vars(t):
         elif z3.is_quantifier(x):
             stack.append(x.body())
     r = frozenset(out)
-    _vars_cache[tid] = r
+    # keep the term alive: z3 re-uses ast ids of collected terms
+    _vars_cache[tid] = (t, r)
     return r
 
 
